@@ -182,6 +182,40 @@ theorem gmfxStep_eq_memStep (x var : List Rat) (m0 v0 : Rat) (hne : x ≠ []) (h
   ring
 
 
+/-! ## Variance ratio: the `df`-weighted fixed-effects variance -/
+
+/-- `'fixed'` only depends on the *relative* weights: rescaling `df` (e.g. real degrees of
+    freedom 30 per subject instead of 1) leaves it unchanged — it is normalised by `df.sum()`,
+    not by the number of subjects. -/
+theorem fixedVar_scale_invariant (c : Rat) (hc : c ≠ 0) (df s : List Rat) :
+    fixedVar (df.map (c * ·)) s = fixedVar df s := by
+  unfold fixedVar
+  rw [sum_zipWith_scale, sum_map_mul_left]
+  by_cases h : df.sum = 0
+  · simp [h]
+  · field_simp
+
+/-- with the default `df = ones` it is the plain mean of the first-level variances -/
+theorem fixedVar_ones (s : List Rat) :
+    fixedVar (List.replicate s.length 1) s = s.sum / s.length := by
+  unfold fixedVar
+  rw [sum_zipWith_replicate_one, sum_replicate_one]
+
+/-- constant weights of any size give the plain mean too -/
+theorem fixedVar_const (c : Rat) (hc : c ≠ 0) (s : List Rat) :
+    fixedVar (List.replicate s.length c) s = s.sum / s.length := by
+  have : List.replicate s.length c = (List.replicate s.length (1 : Rat)).map (c * ·) := by simp
+  rw [this, fixedVar_scale_invariant c hc, fixedVar_ones]
+
+/-- `'ratio'` is `'random' / 'fixed'` for every `df`, `niter` -/
+theorem varatio_ratio (y sd df : List Rat) (niter : Nat) (red mn : Rat) :
+    (estimateVaratio y sd df niter red mn).2.1 =
+      (estimateVaratio y sd df niter red mn).2.2 / (estimateVaratio y sd df niter red mn).1 := rfl
+
+/-- `'random'` does not depend on `df` -/
+theorem varatio_random_indep_df (y sd df df' : List Rat) (niter : Nat) (red mn : Rat) :
+    (estimateVaratio y sd df niter red mn).2.2 = (estimateVaratio y sd df' niter red mn).2.2 := rfl
+
 /-! ## p-values -/
 
 theorem pvalue_le_one (draws : List Rat) (t : Rat) : pvalue draws t ≤ 1 := by
@@ -255,6 +289,8 @@ example : osStudentSq [1, 2, 4] 0 = (1, some 7) := by decide +kernel
 example : ∃ d ∈ ([1, 2, 3] : List Rat), (3 : Rat) ≤ d := ⟨3, by simp, le_refl _⟩
 example : pvalue [1, 2, 3] 3 = 1 / 3 := by decide +kernel
 example : pvalue [1, 2, 3] 4 = 0 := by decide +kernel   -- the excluded point is reachable
+example : fixedVar [30, 30] [1, 3] = 2 := by decide +kernel
+example : fixedVar [10, 30] [1, 3] = 5 / 2 := by decide +kernel
 example : gmfxStep [1, 2, 4] [1, 1, 2] (1, 1) = memStep [1, 2, 4] [1, 1, 2] (1, 1) := by decide +kernel
 
 end NipyVerif.C17
